@@ -113,7 +113,9 @@ PROVED = {
          "specifications that are not derive-consistent: a child whose path omits its global parent's placeholder; counterexample exhibited). "
          "C01_reader_roundtrip_raw_partial / C01_roundtrip_raw_partial (Proofs/RoundTripRaw.v): raw tags with well-formed ids round-trip when unknown "
          "ids are allowed — reader half for known-size documents with raw leaves anywhere, writer half (write_raw and write(RawTag)) and the full round "
-         "trip. Global elements below unknown-size masters (inherently ambiguous) are covered by the "
+         "trip. C01_roundtrip_known_partial2 / C01_full_roundtrip_known_partial / C01_mixed_roundtrip_known_partial (Proofs/WriteEncG.v): the writer half and "
+         "the full write->read round trip for the second class (paths with global placeholders), for separate calls, Full items and arbitrary mixes. "
+         "Global elements below unknown-size masters (inherently ambiguous) are covered by the "
          "correspondence run (write-then-read of random conformant documents incl. boundary payload lengths, widths, Full, unknown sizes, raw tags).", ""),
  "C02": ("PARTIAL. Theorem C02_fixpoint_partial: for every strict configuration and every conforming document in ANY encoding (zero-padded or empty "
          "integers, 4-byte floats, any size width incl. 8-byte fields, any subset of unknown-size masters closed by a following element or EOF), the "
